@@ -371,8 +371,8 @@ def _str(x='', *a):
             return I.call(d, [x], {})
         raise E.Unsupported('str(object)')
     if isinstance(x, (SInt, SBool)):
-        used('str(int) is an injective uninterpreted function (decimal rendering not modelled)')
-        return SAbs('str_of_int', as_int(x), str)
+        used('str(int) is kept as the decimal rendering of a symbolic integer inside a structured text (values.SText)')
+        return V.SText([('int', as_int(x))])
     if V.is_symbolic(x):
         raise E.Unsupported('str(%s)' % type(x).__name__)
     return I.native(str, [x] + list(a), {})
@@ -823,6 +823,31 @@ def _seq_pop(s, i=-1):
 @method_model('str', 'encode')
 def _str_encode(s, encoding='utf-8', errors='strict'):
     return encode_str(s, encoding)
+
+
+@method_model('str', 'join')
+def _str_join(s, items):
+    from . import loops as _loops
+    view = _loops.iteration_view(items)
+    if view[0] != 'concrete':
+        raise E.Unsupported('str.join over a symbolic-length iterable')
+    c = _loops.concretize_count(s.seq.n)
+    if c is None:
+        raise E.Unsupported('str.join with a symbolic separator')
+    sep = bytes(V.simp(s.seq.at(z3.IntVal(k))).as_long() for k in range(c)).decode('utf-8')
+    parts = []
+    for k, it in enumerate(view[1]):
+        if k:
+            parts.append(('lit', sep))
+        if isinstance(it, str):
+            parts.append(('lit', it))
+        elif isinstance(it, V.SText):
+            parts.extend(it.parts)
+        else:
+            raise E.Unsupported('str.join of %s' % type(it).__name__)
+    if all(kind == 'lit' for kind, _ in parts):
+        return ''.join(v for _, v in parts)
+    return V.SText(parts)
 
 
 @method_model('str', 'lower')
